@@ -94,6 +94,15 @@ out0 = apply_qe(array=ph, qe=0.37, binomial_sampling=False)
 out1 = apply_qe(array=ph, qe=0.37, binomial_sampling=True)
 VIOLATED = not np.allclose(out0, ph * 0.37) or bool(np.any(out1 < 0)) or bool(np.any(out1 > np.trunc(ph)))
 DETAIL = 'expectation: ' + repr(out0.tolist()) + ' sampled: ' + repr(out1.tolist())
+if not VIOLATED:
+    # fractional photon counts, efficiency one (every trial succeeds): the charge can never exceed the photons of its pixel
+    frac = np.array([[0.6, 2.6, 0.4, 54321.75, 2.5, 3.5, 0.999999]])
+    for q in (1.0, 0.95):
+        for _ in range(20 if q < 1 else 1):
+            out = apply_qe(array=frac, qe=q, binomial_sampling=True)
+            if np.any(out > frac) or np.any(out < 0):
+                VIOLATED, DETAIL = True, f'qe={q}: photons {frac.tolist()} -> charge {np.asarray(out).tolist()} (more electrons than photons in a pixel)'; break
+        if VIOLATED: break
 """, "0 <= charge <= photons; exactly qe * photons without sampling")
     for sampling in (False, True):
         holder = {}
